@@ -5,7 +5,9 @@ from .common import TRUSTED, ASSUMPTIONS, default_nontrivial, LEVEL_NOTE, TECHNI
 LEVEL = "proof"
 THEOREMS = ["C06_refines", "C06_wf", "C06_outer", "C06_max_u", "C06_transpose", "C06_vacuous", "C06_dogmatic",
             "C06_unlabelled_accepts", "C06_labelled", "C06_refines3", "C06_wf3",
-            "C06_candidate", "C06_candidate3", "C06_uncertainty_nonneg_gen", "C06_uncertainty_nonneg_gen3"]
+            "C06_candidate", "C06_candidate3", "C06_uncertainty_nonneg_gen", "C06_uncertainty_nonneg_gen3",
+            "C06_clamp_idle", "C06_clamp_idle3", "C06_product_masses_nonneg_gen", "C06_product_masses_nonneg_gen3",
+            "C06_product_negative_mass_before", "C06_product_negative_mass_repaired"]
 EXTRA_MODULES = [("SLV.Props.OracleSpec", ("OS_outer", "OS_product", "OS_projQ"))]
 RULE = ("prod2 / prod3 on pairs/triples of well-formed opinions (zero base rates, vacuous, dogmatic), factor sizes 2..3, dyadic grids "
         "(denominators 4..16), unlabelled (validated) and labelled (normalised) implementations, owned and OpinionRef; each pair also "
@@ -16,7 +18,13 @@ RULE = ("prod2 / prod3 on pairs/triples of well-formed opinions (zero base rates
         "(projection summing to 1 +- 1 ulp) and the recorded witnesses of repair abca806, both families, both arities, pairs also "
         "exchanged; 60% of that stream is steered (rejection sampling against an emulation, in the case's precision, of the cancelling "
         "quotient (P0*P1 - b0*b1)/(a0*a1)) to operands on which that evaluation misses the exact joint uncertainty by more than the "
-        "oracle tolerance; f32+f64. non-trivial = value returned")
+        "oracle tolerance; VACUOUS-FACTOR stream (repair b817f74: the joint masses p - a*u are clamped at zero): products with at least "
+        "one vacuous or nearly vacuous factor (zero belief on its dominant base-rate element) times arbitrary float factors, all three "
+        "families, plus the 140 enumerated operand tuples on which the unlabelled products panicked before that repair "
+        "(gen/corpus/prodclamp_hot.txt) replayed in every family; STRICT sign clause C06.masses_nonneg on every ok, finite result with "
+        "finite operands: every joint belief mass >= 0 exactly (no tolerance; for the labelled families the only clause that sees the "
+        "residue of -1.5 .. -4.5 eps), and joint uncertainty >= 0 when all operand scalars are >= 0; f32+f64. non-trivial = value "
+        "returned")
 EXHAUSTIVE = {}
 nontrivial = default_nontrivial
 CROSS_GROUPS = [0]
@@ -27,6 +35,11 @@ LEVEL_TEXT = ("Theorems for all factor sizes and rational well-formed factors (z
               "each candidate in the expanded form u0(r1+u1) + r0 u1, r = b/a (three factors likewise; repair abca806): proved equal to "
               "(P-B)/A on every cell of non-zero joint base rate (lifting lemma, no well-formedness needed), and >= 0 for all non-negative "
               "operands whatever their sums (the cancelling form is negative on tolerance-well-formed operands: Pinned witnesses). "
+              "Every joint mass is clamped at zero (repair b817f74): idle on well-formed rational operands (the un-clamped text computes "
+              "the same opinion), and for ALL operands of the exact semantics (no well-formedness, infinities and NaN included) no joint "
+              "mass of either family compares below zero; a remaining b[] rejection of the unlabelled constructor means a NaN, infinite "
+              "or > 1+4eps mass (the un-clamped text returns a finite negative mass on tolerance-well-formed rationals, and -1.5 eps on "
+              "decimal binary64 operands: kernel-checked float witnesses). "
               "Tied to Product2/3 of "
               "both families by the correspondence check; predicates evaluated on the implementation's outputs.")
 
@@ -37,6 +50,12 @@ def cases(rng, tier):
     for fmt in ("f64", "f32"):
         N = 600 if tier == "quick" else 20000
         out += small_rate_cases(rng, fmt, N // 4)
+        # products with a vacuous / nearly vacuous factor (repair R14: joint masses clamped at zero): enumerated pre-repair hits in
+        # all three container families, and a random stream of the same shape
+        out += G.prodclamp_hot(fmt, ("M", "D", "N"))
+        for _ in range(N // 2):
+            op, ns, ws = G.vacuous_factor_product(rng, fmt)
+            out.append(G.line(op, fmt, rng.choice(["M", "D", "N"]) + "." + rng.choice(["o", "r"]), ns, ws))
         for _ in range(N):
             den = rng.choice([4, 8, 16])
             fam = rng.choice(["M", "D", "N"])
